@@ -447,17 +447,8 @@ impl<R: Read, TSpec> TagIterator<R, TSpec>
 
         if let Some(next_read) = self.read_tag_checked() {
             if let Ok(next_tag) = &next_read {
-                while matches!(self.tag_stack.last(), Some(open_tag) if open_tag.size == Unknown) {
-                    #[cfg(feature = "verif-hooks")] crate::verif::tick();
-                    let open_tag = self.tag_stack.last().unwrap();
-                    let previous_tag_ended = open_tag.is_ended_by(next_tag.tag.get_id());
-        
-                    if previous_tag_ended {
-                        let t = self.tag_stack.pop().unwrap();
-                        self.emission_queue.push_back(Ok((t.tag, t.tag_start)));
-                    } else {
-                        break;
-                    }
+                if let Some(index) = self.unknown_masters_ended_by(next_tag.tag.get_id()) {
+                    self.emission_queue.extend(self.tag_stack.drain(index..).map(|t| Ok((t.tag, t.tag_start))).rev());
                 }
 
                 if let Some(Master::Start) = next_tag.tag.as_master() {
@@ -548,9 +539,29 @@ impl<R: Read, TSpec> TagIterator<R, TSpec>
         TSpec::get_master_tag(tag_id, Master::Full(rolled_children)).unwrap_or_else(|| panic!("Bad specification implementation: Tag id 0x{:x?} type was master, but could not get tag!", tag_id))
     }
 
+    ///
+    /// Finds the unknown-size masters that `tag_id` ends.
+    ///
+    /// Only the run of unknown-size masters at the top of the stack can be ended by an element.  If the element ends one of them, every master nested inside it ends as well, so this returns the index of the outermost such master.
+    ///
+    fn unknown_masters_ended_by(&self, tag_id: u64) -> Option<usize> {
+        let mut index = None;
+        for (i, open_tag) in self.tag_stack.iter().enumerate().rev() {
+            if open_tag.size != Unknown {
+                break;
+            }
+            if open_tag.is_ended_by(tag_id) {
+                index = Some(i);
+            }
+        }
+        index
+    }
+
     #[inline(always)]
     fn validate_tag_path(&self, tag_id: u64) -> bool {
-        validate_tag_path::<TSpec>(tag_id, self.tag_stack.iter().map(|p| (p.tag.get_id(), p.size, 0)))
+        // An element that ends unknown-size masters is judged against the masters that remain open after that
+        let remaining = self.unknown_masters_ended_by(tag_id).unwrap_or(self.tag_stack.len());
+        validate_tag_path::<TSpec>(tag_id, self.tag_stack[..remaining].iter().map(|p| (p.tag.get_id(), p.size, 0)))
     }
 
     #[inline(always)]
